@@ -218,9 +218,9 @@ func c10Run(w *W) {
 	if w.thorough() {
 		n = 4
 	}
-	genSyms(append(append([]string{}, sigmaCore...), ";;", "<<-E", "`c`", "$((1))", "é", "$("), n, func(ss []sym) {
-		if !w.Mine() || w.TimeUp() || lexicallyEntangled(ss) {
-			return
+	genSyms(append(append([]string{}, sigmaCore...), ";;", "<<-E", "`c`", "$((1))", "é", "$(", "`"), n, func(ss []sym) {
+		if !w.Mine() || w.TimeUp() {
+			return // (strings whose quotes pair up across symbols are explored too: the fault-free parse is the reference)
 		}
 		src := render(ss).src
 		c10Sentence(w, src)
@@ -255,7 +255,7 @@ func init() {
 	register(&check{
 		id:    "C10",
 		level: "fault_enumeration",
-		rule: "every accepted sentence among all strings ≤ 3 (quick) / 4 (thorough) over Σcore+5 and the derivation sets D0, D1, word menu (thorough: D2) in canonical and tight layout × every rune index k ∈ [0, len] at which the reader starts failing × {io.RuneScanner, io.Reader, io.RuneScanner with an error that wraps io.EOF}: the complete set of single-fault positions; additionally every sentence of the string space that the parser REJECTS and every accepted one under a transient (one-shot) fault at every k: the call must return, with a non-nil error that is the read error or a parser.Error; " +
+		rule: "every accepted sentence among all strings ≤ 3 (quick) / 4 (thorough) over Σcore+7 and the derivation sets D0, D1, word menu (thorough: D2) in canonical and tight layout × every rune index k ∈ [0, len] at which the reader starts failing × {io.RuneScanner, io.Reader, io.RuneScanner with an error that wraps io.EOF}: the complete set of single-fault positions; additionally every sentence of the string space that the parser REJECTS and every accepted one under a transient (one-shot) fault at every k: the call must return, with a non-nil error that is the read error or a parser.Error; " +
 			"non-trivial = every base sentence (each is explored at all of its positions)",
 		assume: []string{"a fault is 'delivered' when the RuneScanner wrapper returned the sentinel; for io.Reader (wrapped in bufio by go.sh) delivery to the parser is not observable, so the rule is: nil error only with the fault-free result and only if k is not inside the consumed text, otherwise errors.Is(err, sentinel)"},
 		run:    c10Run,
